@@ -6,6 +6,7 @@ import random
 import engine
 import scen
 import runoracle
+import steptie
 
 engine.use_repo()
 
@@ -33,10 +34,11 @@ def build_case(case):
     return full
 
 
-def eval_run(case, oracles, timeout_s=90):
+def eval_run(case, oracles, timeout_s=90, step_tie=True):
     full = build_case(case)
     fault = full.get("fault_step")
-    r = scen.run_real(full, timeout_s=timeout_s, fault_step=fault)
+    with steptie.tie_for(full, step_tie) as tie:
+        r = scen.run_real(full, timeout_s=timeout_s, fault_step=fault)
     viol, stats = [], [full["strategy"]]
     for o in oracles:
         if o is runoracle.check_c17:
@@ -48,6 +50,9 @@ def eval_run(case, oracles, timeout_s=90):
             and len(r["trace"]) == r["step_i"]:
         lines.append(runoracle.runloop_line(full, r))
         impl.append(runoracle.runloop_impl(full, r))
+    if not r.get("timeout"):
+        lines += tie.lines
+        impl += tie.impl
     if r.get("aborted"):
         stats.append("aborted")
         txt = [l for l in r.get("abort_text", "").strip().split("\n") if l.strip() and not l.startswith("Energy")]
@@ -82,4 +87,5 @@ def eval_run(case, oracles, timeout_s=90):
 
 
 def compare(case, impl, model):
-    return runoracle.runloop_compare(impl, model)
+    handled, d = steptie.compare(impl, model)
+    return d if handled else runoracle.runloop_compare(impl, model)
